@@ -209,6 +209,7 @@ class System:
         self.spec = spec
         self.require = require or {"ovni": "1.1.0"}
         self.extra_meta = extra_meta or {}
+        self.meta = {"spec": spec, "require": self.require, "extra_meta": self.extra_meta}
         self.threads = []  # (loom, pid, tid)
         for l in spec:
             for p in l["procs"]:
